@@ -8,7 +8,25 @@ the n-th element is accepted iff n ≤ 2^31 - 1; beyond it the push is an error 
 namespace Driver.Suites.Overflow
 open Lean Driver SaModel SaModel.Build
 
+/-- `view_bytes`: n values of 2^20 bytes into one Utf8View column; value i is stored at buffer offset i * 2^20, which
+the descriptor can hold iff it is ≤ i32::MAX, i.e. iff i ≤ 2047: the first refused push is 2048 (an error — not a
+panic as in the pinned `pack_extern` assert, not a wrapped offset) -/
+def handleViewBytes (j : Json) : Except String Verdict := do
+  let n ← getNat j "n"
+  let impl ← getObj j "impl"
+  let cls := implCls impl
+  let expected : Option Nat := if n > 2048 then some 2048 else none
+  let got : Option Nat := (impl.getObjVal? "ok").toOption.bind fun o => (o.getObjValAs? Nat "first_err").toOption
+  let c16 := if cls == "panic" || cls == "hang" then "fail" else "pass"
+  let ok := cls == "ok" && got == expected
+  let c05 := if cls == "ok" && got != expected then "fail" else "pass"
+  return { agree := ok, spec := [("C05", c05), ("C16", c16)],
+           tags := [s!"view-bytes:n{if n > 2048 then ">" else "≤"}2048", s!"impl:{cls}"],
+           sig := if ok then "" else if cls == "panic" then "C16/panic/bytes-view-offset-assert/view_bytes" else s!"overflow/view-bytes/first-err={got}/expected={expected}",
+           why := s!"n = {n}: first refused push {got}, expected {expected} ({cls})" }
+
 def handle (j : Json) : Except String Verdict := do
+  if (getStr j "kind").toOption == some "view_bytes" then return ← handleViewBytes j
   let n ← getNat j "n"
   let impl ← getObj j "impl"
   let cls := implCls impl
